@@ -9,6 +9,7 @@ CONSTANTS
     TickSteps = {2}
     NProofs = 3
     TsChoices = {3, 5}
+    FarChoices = {"near"}
     NonceIds = {1, 2, 3}
     ShareNonces = FALSE
     KidChoices = {"k1"}
